@@ -247,7 +247,7 @@ def run(report):
         for f in l.functions:
             mod = f[len("symplyphysics."):].rsplit(".", 2 if "Field." in f else 1)[0]
             report.function(f, PKG / (mod.replace(".", "/") + ".py"))
-    run_laws(report, MOD, ls, "C12")
+    run_laws(report, MOD, ls, "C12", plain="quick")
     report.extra["exhaustive"] = True
     report.extra["shape_rule"] = "three coordinate systems x component counts 0..3; fields are undefined functions of the base scalars"
     report.trust("CPython 3.12", "SymPy 1.14: diff (chain rule, symmetric mixed partials of undefined functions), subs, "
